@@ -13,6 +13,13 @@ check("C03",
   "Bounded by tree size; genesis periods 10 and 3 (window wrap and purge inside the bound); trusted: the harness's RefLedger (set insert/remove) and the block factory built on the real producer.",
   "DESIGN.md §3 C03")
 
+check("C04",
+  "explicit-state exploration of the implementation: every fork shape x offending-block position x invalidity kind, full-state before/after comparison and hooked step counter",
+  "model_checking",
+  "For every fork shape (current segment a<=2/3, candidate a+1 or a+2 blocks, light-first-block variants that delay the reorg trigger), every position of the offending block and nine kinds of invalidity (signed/unsigned header field, creator signature, transaction signature, spent input, transaction list vs merkle root, timestamp/burn fee, golden-ticket density, unknown parent), own and foreign creator, genesis period 10 and 3: the complete observable state before add_block equals the state after a rejection, the wind/unwind loop stays within 2(a+b)+2 dispatches (cfg-guarded counter turns a livelock into a verdict), the C03 consistency oracle holds afterwards and an honest successor of the tip is still accepted.",
+  "Descendants of an offending block are honest blocks re-parented and re-signed with the creator key the harness owns; pool contents are outside the property's no-trace list and only reported.",
+  "DESIGN.md §3 C04")
+
 NOT_YET = "check not built yet in this session (work in progress, see DESIGN.md §8 build order); nothing is claimed for it"
 NA = {}
 
